@@ -19,7 +19,7 @@ import time
 
 VERIF = os.path.dirname(os.path.dirname(os.path.abspath(__file__)))
 FILES = ["src/raw/mod.rs", "src/control/bitmask.rs", "src/control/tag.rs", "src/control/group/sse2.rs"]
-ORDER = ["C01", "C06", "C02", "C03", "C08", "C10", "C13", "C14", "C09", "C11", "C12", "C05", "C07", "C15", "C04", "C18"]
+ORDER = ["C01", "C06", "C02", "C03", "C08", "C10", "C13", "C14", "C09", "C11", "C12", "C05", "C07", "C15", "C04", "C18", "C19", "C20"]
 
 RULES = [
     (r"(?<![=!<>])==(?!=)", "!="), (r"!=", "=="),
